@@ -5,8 +5,11 @@
 // one string field, or lack the distribution / repository (Tie A, "evaluate
 // instead of parse": go/internal/extract/rxprobe.go).
 //
+// It also lists what importing matchers/defaults registers: for every registered
+// name the Go type of its factory and of the matchers the factory hands out.
+//
 // stdin:  {"<matcher id>": ["candidate string", ...], ...}
-// stdout: {"<matcher id>": {"name", "query": [..], "queryConfigured": [..]|null, "versionFilter", "authoritative",
+// stdout: {"registered": [{"name","factory","matchers":[types]}], "<matcher id>": {"name", "query": [..], "queryConfigured": [..]|null, "versionFilter", "authoritative",
 //
 //	"base": "true|false|panic", "nil": {"Distribution": .., "Repository": ..}, "accepted": [{"path","value"}]}}
 package main
@@ -17,6 +20,7 @@ import (
 	"fmt"
 	"os"
 	"reflect"
+	"sort"
 	"strings"
 
 	"github.com/quay/claircore"
@@ -26,6 +30,8 @@ import (
 	"github.com/quay/claircore/gobin"
 	"github.com/quay/claircore/java"
 	"github.com/quay/claircore/libvuln/driver"
+	_ "github.com/quay/claircore/matchers/defaults"
+	"github.com/quay/claircore/matchers/registry"
 	"github.com/quay/claircore/nodejs"
 	"github.com/quay/claircore/oracle"
 	"github.com/quay/claircore/photon"
@@ -133,7 +139,24 @@ func main() {
 		"rhcc": rhcc.Matcher, "python": &python.Matcher{}, "java": &java.Matcher{}, "ruby": &ruby.Matcher{},
 		"gobin": &gobin.Matcher{}, "nodejs": &nodejs.Matcher{},
 	}
-	out := map[string]*info{}
+	out := map[string]any{}
+	type reg struct {
+		Name     string   `json:"name"`
+		Factory  string   `json:"factory"`
+		Matchers []string `json:"matchers"`
+	}
+	var regs []reg
+	for name, f := range registry.Registered() {
+		r := reg{Name: name, Factory: fmt.Sprintf("%T", f)}
+		if got, err := f.Matcher(context.Background()); err == nil {
+			for _, m := range got {
+				r.Matchers = append(r.Matchers, fmt.Sprintf("%T", m))
+			}
+		}
+		regs = append(regs, r)
+	}
+	sort.Slice(regs, func(i, j int) bool { return regs[i].Name < regs[j].Name })
+	out["registered"] = regs
 	for id, m := range ms {
 		x := &info{Name: m.Name(), Query: names(m.Query()), Nil: map[string]string{}}
 		if id == "rhel" {
